@@ -40,6 +40,7 @@ enum
     MOP_FILTER_CREATE, MOP_COMPUTE_REGION,
     /* meta */
     MOP_SCRIBBLE,           /* caller overwrites pixels of an image it owns */
+    MOP_ALIAS,              /* a second image over the pixels of another one (the "pixbuf" idiom: x888 source + a888 mask on the same bits) */
     MOP_N
 };
 
@@ -98,6 +99,8 @@ typedef struct machine
     /* callback ledger (C20) */
     int cb_total;
     int cb_unexpected;            /* destroy callback for an object the machine no longer tracks */
+    arena_buf_t *retired[64];     /* storage of released images: kept until the machine goes, aliases may still point into it */
+    int n_retired;
     int ledger_violation;         /* lifetime ledger (C20): first discrepancy */
     char ledger_detail[200];
     uint8_t releasing[M_NIMG];    /* slots the model releases in the current op */
